@@ -211,7 +211,12 @@ def cmd_check(args) -> int:
         property_id=pid, tier=tier, seed=seed, level=report.level,
         coverage=cov, assumptions=report.assumptions,
         wall_s=round(wall, 2), violations=len(new_violations))
-    with open(os.path.join(ROOT, 'evidence', f'{pid}.json'), 'w') as f:
+    evdir = os.path.join(ROOT, 'evidence')
+    if os.path.realpath(REPO) != '/repo':
+        # runs against a scratch copy never overwrite the committed evidence
+        evdir = os.path.join('/tmp', 'verif_scratch_evidence')
+        os.makedirs(evdir, exist_ok=True)
+    with open(os.path.join(evdir, f'{pid}.json'), 'w') as f:
         json.dump(evidence, f, indent=1, sort_keys=True, default=str)
     print(f'{pid} tier={tier} seed={seed} wall={wall:.1f}s '
           f'violations={len(new_violations)} known={len(known_seen)} '
